@@ -422,6 +422,11 @@ def check_property(pid, tier, seed, replay=None):
                             note="%d failing cases in this run; first one recorded" % len(new_fail))
         lines.append("VIOLATION property=%s replay=%s" % (pid, path))
         violations.append(path)
+        # one diagnostic line per failing case (up to 5) so that a log alone says what failed
+        for hb2, c2, v2 in new_fail[:5]:
+            log("failing case: harness=%s kind=%s flags=%s direct=%s input=%s observed=%s" % (
+                hb2, c2.get("kind"), v2, str(c2.get("direct_violation", ""))[:200],
+                json.dumps(c2.get("input"), default=str)[:400], json.dumps(c2.get("observed"), default=str)[:400]))
     elif err:
         path = write_replay(pid, tier, seed, "no-failing-input-found", "correspondence could not be run: " + err[:1500], None, 0)
         lines.append("VIOLATION property=%s replay=%s no-failing-input-found" % (pid, path))
